@@ -675,10 +675,24 @@ class Gen(object):
                 sets = [name]
             sv = t.choice(sets)
             ev = env.fresh('e')
+            reuse = [v for v in env.vars(lambda i: i['ty'] == 'inst' and i['cls'] == env.get(sv)['cls'] and not i.get('ro')) if v != 'self']
+            if reuse and t.flag():
+                # the iterator is a variable that exists already (declared in this or an enclosing block): it is assigned
+                # on every round and keeps the last element afterwards
+                ev = t.choice(reuse)
+                self.features.add('foreach-existing-iterator')
             env.push()
             env.blocks[-1][ev] = {'ty': 'inst', 'cls': env.get(sv)['cls'], 'nonempty': True}
-            body_ = self.acc_step(env, '100') + self.stmts(env, depth - 1, True) + self.acc_step(env, '1')
+            seen = []
+            ints = [an for an, at in ATTRS[env.get(sv)['cls']] if at == 'int']
+            if env.get('acc') is not None and ints:
+                # which instance a round works on shows in the result
+                seen = [N('AssignmentNode', variable_access=self.var('acc'), expression=N(
+                    'BinaryOperationNode', left=self.var('acc'), operator='+', right=N('FieldAccessNode', handle=self.var(ev), name=ints[0])))]
+            body_ = self.acc_step(env, '100') + seen + self.stmts(env, depth - 1, True) + self.acc_step(env, '1')
             env.pop()
+            if env.get(ev) is not None:
+                env.set(ev, dict(env.get(ev), nonempty=False))      # an empty set leaves it as it was
             self.features.add('foreach')
             if in_loop:
                 self.features.add('nested-loop')
